@@ -729,10 +729,7 @@ func (e *Engine) handleLoop(fc *fnCtx, li *loopInfo, sIn *State) map[*ssa.BasicB
 		if !havocAll {
 			e.setHeapIn(bs, iterName(li), "Int", "(+ "+e.heapIn(head, iterName(li), "Int")+" 1)")
 		}
-		for i, inv := range invs {
-			f := e.evalInv(fc, li, bs, inv)
-			e.addObl(fc.fn, "inv.preserved", invLabel(li, i, inv), li.header.Instrs[0].Pos(), bs.Reach, f)
-		}
+		// assertions at the back edge come first (they are lemmas for the invariants' preservation)
 		if fc.contract != nil && len(fc.contract.Asserts) > 0 && len(e.inlineStack) == 0 {
 			texts := loopTexts(fc.fn)
 			for key, cls := range fc.contract.Asserts {
@@ -741,10 +738,16 @@ func (e *Engine) handleLoop(fc *fnCtx, li *loopInfo, sIn *State) map[*ssa.BasicB
 				}
 				if ord, ok := resolveLoopKey(texts, strings.TrimPrefix(key, "backedge ")); ok && ord == li.ordinal {
 					for _, cl := range cls {
-						e.addObl(fc.fn, "assert", "["+key+"] "+cl.Text, li.header.Instrs[0].Pos(), bs.Reach, e.evalInv(fc, li, bs, cl))
+						f := e.evalInv(fc, li, bs, cl)
+						e.addObl(fc.fn, "assert", "["+key+"] "+cl.Text, li.header.Instrs[0].Pos(), bs.Reach, f)
+						e.assume(bs, f) // assert-then-assume: the invariants below may rely on it
 					}
 				}
 			}
+		}
+		for i, inv := range invs {
+			f := e.evalInv(fc, li, bs, inv)
+			e.addObl(fc.fn, "inv.preserved", invLabel(li, i, inv), li.header.Instrs[0].Pos(), bs.Reach, f)
 		}
 		for _, n := range frameHeaps {
 			if f, ok := e.frameFormula(fc, n, bs); ok {
